@@ -426,6 +426,14 @@ Proof.
   - rewrite (C o r' E). tauto.
 Qed.
 
+Lemma adds_item_fields : forall s s1 s2 w r i, adds_item s s1 w r i -> s_objs s2 = s_objs s1 -> adds_item s s2 w r i.
+Proof.
+  intros s s1 s2 w r i (A1 & A2 & A3) H. split; [|split].
+  - eapply vsame1_trans. exact A1. apply vsame1_fields. exact H.
+  - intros o a. rewrite <- A2. apply vref_fields. exact H.
+  - intros o r' y. rewrite <- A3. rewrite (vitems_fields s1 s2 o r' H). tauto.
+Qed.
+
 Lemma rev_add_adds : forall s w r i, vex s w = true -> (r < vslen s w)%nat -> adds_item s (rev_add s w r i) w r i.
 Proof.
   intros s w r i EX LT. unfold rev_add.
@@ -433,11 +441,7 @@ Proof.
   assert (A : adds_item s (upd_sd s w r g) w r i).
   { apply adds_item_upd_sd; auto. intros osd. eexists. split. reflexivity. intros y. unfold sd_rev_add. cbn [sd_items].
     rewrite In_add_nat. destruct osd; simpl; tauto. }
-  destruct A as (A1 & A2 & A3). unfold upd_sd, g in *.
-  split; [|split].
-  - eapply vsame1_trans. exact A1. apply vsame1_fields. unfold modcoll_add. destruct (existsb _ _); reflexivity.
-  - intros o a. rewrite <- A2. apply vref_fields. unfold modcoll_add. destruct (existsb _ _); reflexivity.
-  - intros o r' y. rewrite <- A3. rewrite vitems_fields. tauto. unfold modcoll_add. destruct (existsb _ _); reflexivity.
+  eapply adds_item_fields. exact A. unfold modcoll_add. destruct (existsb _ _); reflexivity.
 Qed.
 
 Lemma sd_add_item_adds : forall s w r i, vex s w = true -> (r < vslen s w)%nat -> adds_item s (sd_add_item s w r i) w r i.
@@ -448,7 +452,7 @@ Proof.
                        | None => Some (mkSd [i] [] [] false None) end).
   assert (A : adds_item s (upd_sd s w r g) w r i).
   { apply adds_item_upd_sd; auto. intros osd. destruct osd as [sd|]; eexists; (split; [reflexivity|]); intros y; cbn [sd_items].
-    rewrite In_add_nat. tauto. simpl. tauto. }
+    rewrite In_add_nat. tauto. simpl. split; intro HH; destruct HH as [HH|[]]; auto. }
   unfold upd_sd, g in A.
   assert (E : upd_obj s w (fun ob => match oset ob r with
         | Some sd => ob_put_set ob r (Some (mkSd (add_nat i (sd_items sd)) (sd_added sd) (sd_removed sd) (sd_full sd) (sd_count sd)))
@@ -469,7 +473,7 @@ Proof.
                        | None => Some (mkSd [i] [] [] false None) end).
   assert (A : adds_item s (upd_sd s w r g) w r i).
   { apply adds_item_upd_sd; auto. unfold vex. rewrite GW. reflexivity. intros osd. destruct osd as [sd|]; eexists; (split; [reflexivity|]); intros y; cbn [sd_items].
-    rewrite In_add_nat. tauto. simpl. tauto. }
+    rewrite In_add_nat. tauto. simpl. split; intro HH; destruct HH as [HH|[]]; auto. }
   assert (E : s1 = upd_sd s w r g).
   { unfold upd_sd, upd_obj, g. rewrite GW. destruct (oset ob r) as [sd|].
     - destruct (sd_full sd); inversion H. reflexivity.
@@ -502,14 +506,10 @@ Proof.
         * destruct (lt_dec r (length (o_sets ob))) as [LT|GE].
           -- rewrite (upd_sd_items_same s w r g ob GW LT). unfold vitems, coll_items. rewrite GW. unfold g.
              destruct (oset ob r) as [sd|]; simpl. rewrite In_remove_nat. tauto. tauto.
-          -- unfold vitems, coll_items, upd_sd. rewrite get_upd_obj_same, GW. simpl.
-             destruct (oset_put_same_or ob r (g (oset ob r))) as [X|[X _]].
-             ++ exfalso. unfold oset, ob_put_set, ob_set_sets in X. cbn [o_sets] in X.
-                assert (N : nth r (upd_nth (o_sets ob) r (g (nth r (o_sets ob) None))) None = None).
-                { apply nth_overflow. rewrite upd_nth_length. lia. }
-                assert (N2 : nth r (o_sets ob) None = None) by (apply nth_overflow; lia).
-                rewrite N2 in *. unfold g in *. simpl in *. rewrite X. rewrite N2. simpl. tauto.
-             ++ rewrite X. assert (N2 : oset ob r = None) by (unfold oset; apply nth_overflow; lia). rewrite N2. simpl. tauto.
+          -- assert (N2 : oset ob r = None) by (unfold oset; apply nth_overflow; lia).
+             unfold vitems, coll_items, upd_sd. rewrite get_upd_obj_same, GW. simpl.
+             unfold ob_put_set, ob_set_sets, oset. cbn [o_sets]. rewrite upd_nth_overflow by lia.
+             fold (oset ob r). rewrite N2. simpl. tauto.
         * unfold vitems, coll_items, upd_sd. rewrite get_upd_obj_same, GW. simpl. tauto.
       + rewrite (C o r' EQ). tauto.
     - assert (ID : upd_obj s w (fun ob0 => match oset ob0 r with Some sd => ob_put_set ob0 r (Some (sd_rev_remove sd i)) | None => ob0 end) = put_obj s w ob).
@@ -526,5 +526,506 @@ Proof.
   destruct K as (K1 & K2 & K3). split; [|split].
   - eapply vsame1_trans. exact K1. apply vsame1_fields. exact H0.
   - intros o a. rewrite <- K2. apply vref_fields. exact H0.
-  - intros o r' y. rewrite <- K3. rewrite (vitems_fields _ s0 o r') by (symmetry; exact H0). tauto.
+  - intros o r' y. rewrite <- K3. rewrite (vitems_fields _ s0 o r' H0). tauto.
 Qed.
+
+Lemma ooid_dec : forall a b : option oid, {a = b} + {a <> b}.
+Proof. decide equality. apply Nat.eq_dec. Qed.
+
+Definition ref_of (v : val) : option oid := match v with VRef y => Some y | _ => None end.
+
+Definition sets_val (f : obj -> obj) (a : nat) (v : val) : Prop :=
+  forall ob, o_ent (f ob) = o_ent ob /\ o_st (f ob) = o_st ob /\ o_sets (f ob) = o_sets ob /\ o_vals (f ob) = upd_nth (o_vals ob) a (Some v).
+
+Lemma sets_val_put : forall a v, sets_val (fun ob => ob_put_val ob a (Some v)) a v.
+Proof. intros a v ob. auto. Qed.
+Lemma sets_val_put_db : forall a v d, sets_val (fun ob => ob_put_val (ob_put_dbval ob a d) a (Some v)) a v.
+Proof. intros a v d ob. auto. Qed.
+
+Lemma put_val_views_gen : forall s o a v f ob, sets_val f a v -> get_obj s o = Some ob -> (a < length (o_vals ob))%nat ->
+  let s' := upd_obj s o f in
+  vsame1 s s' /\ (forall o' r', vitems s' o' r' = vitems s o' r') /\
+  (forall o' a', vref s' o' a' = if Nat.eqb o' o && Nat.eqb a' a then ref_of v else vref s o' a').
+Proof.
+  intros s o a v f ob SV G LT s'. unfold s'. split; [|split].
+  - apply vsame1_upd_obj. intros ob0. destruct (SV ob0) as (A & B & C & D). rewrite C. auto.
+  - intros o' r'. unfold vitems, coll_items. rewrite get_upd_obj. destruct (Nat.eqb o o'); auto. destruct (get_obj s o') as [ob0|]; simpl; auto.
+    unfold oset. destruct (SV ob0) as (_ & _ & C & _). rewrite C. reflexivity.
+  - intros o' a'. unfold vref, obj_val. rewrite get_upd_obj. rewrite (Nat.eqb_sym o' o). destruct (Nat.eqb o o') eqn:E; simpl; auto.
+    apply Nat.eqb_eq in E. subst o'. rewrite G. simpl. destruct (SV ob) as (_ & _ & _ & D). unfold oval. rewrite D.
+    destruct (Nat.eqb a' a) eqn:E2.
+    + apply Nat.eqb_eq in E2. subst a'. rewrite nth_upd_nth_same by assumption. destruct v; reflexivity.
+    + apply Nat.eqb_neq in E2. rewrite nth_upd_nth_other by auto. reflexivity.
+Qed.
+
+Lemma put_val_views : forall s o a v ob, get_obj s o = Some ob -> (a < length (o_vals ob))%nat ->
+  let s' := upd_obj s o (fun ob0 => ob_put_val ob0 a (Some v)) in
+  vsame1 s s' /\ (forall o' r', vitems s' o' r' = vitems s o' r') /\
+  (forall o' a', vref s' o' a' = if Nat.eqb o' o && Nat.eqb a' a then ref_of v else vref s o' a').
+Proof. intros s o a v ob G LT. apply (put_val_views_gen s o a v _ ob (sets_val_put a v) G LT). Qed.
+
+Lemma set_info_lt : forall sch t r p, set_info sch t r = Some p -> (r < nattrs sch t)%nat.
+Proof. intros. unfold set_info in H. destruct (get_attr sch t r) eqn:G; try discriminate. eapply get_attr_lt; eauto. Qed.
+Lemma ref_info_lt : forall sch e a p, ref_info sch e a = Some p -> (a < nattrs sch e)%nat.
+Proof. intros. unfold ref_info in H. destruct (get_attr sch e a) eqn:G; try discriminate. eapply get_attr_lt; eauto. Qed.
+
+Section RelLeaves.
+Variable sch : schema.
+Hypothesis WF : wf_schema sch = true.
+
+(* the common core of Attribute.__set__ on a reference: value, old collection, new collection; `add` is the way the new
+   owner's collection receives the item (rev_add or sd_add_item) *)
+Lemma Inv_rel_set_ref : forall s b a t r newv (add : sess -> oid -> nat -> oid -> sess),
+  (forall s0 w r0 i, vex s0 w = true -> (r0 < vslen s0 w)%nat -> adds_item s0 (add s0 w r0 i) w r0 i) ->
+  Inv_shape sch s -> Inv_sshape sch s -> Inv_rel sch s ->
+  vlive s b = true -> ref_info sch (vent s b) a = Some (t, r) ->
+  (forall y, newv = VRef y -> vex s y = true /\ vent s y = t) ->
+  vref s b a <> ref_of newv ->
+  let s2 := upd_obj s b (fun ob => ob_put_val ob a (Some newv)) in
+  let s3 := match vref s b a with Some x => rev_remove s2 x r b | None => s2 end in
+  let s4 := match newv with VRef y => add s3 y r b | _ => s3 end in
+  Inv_rel sch s4.
+Proof.
+  intros s b a t r newv add ADD SH SS R LB RI TY NE s2 s3 s4.
+  assert (EXb : vex s b = true) by (unfold vlive, vex in *; destruct (get_obj s b); auto; discriminate).
+  unfold vex in EXb. destruct (get_obj s b) as [ob|] eqn:GB; try discriminate.
+  assert (LT : (a < length (o_vals ob))%nat).
+  { rewrite (SH b ob GB). unfold vent, obj_ent in RI. rewrite GB in RI. eapply ref_info_lt; eauto. }
+  destruct (put_val_views s b a newv ob GB LT) as (P1 & P2 & P3). fold s2 in P1, P2, P3.
+  (* s3 *)
+  assert (V3 : vsame1 s s3 /\ (forall o' a', vref s3 o' a' = if Nat.eqb o' b && Nat.eqb a' a then ref_of newv else vref s o' a') /\
+               (forall o r' y, In y (vitems s3 o r') <-> (if opt_is (vref s b a) o && Nat.eqb r' r then In y (vitems s o r') /\ y <> b else In y (vitems s o r')))).
+  { unfold s3. destruct (vref s b a) as [x|] eqn:OLD.
+    - destruct (rev_remove_removes s2 x r b) as (Q1 & Q2 & Q3). split; [|split].
+      + eapply vsame1_trans; eauto.
+      + intros. rewrite Q2. apply P3.
+      + intros o r' y. rewrite Q3. simpl. rewrite (Nat.eqb_sym x o). rewrite !P2. tauto.
+    - split; [exact P1|]. split; [exact P3|]. intros o r' y. simpl. rewrite P2. tauto. }
+  destruct V3 as (W1 & W2 & W3).
+  (* s4 *)
+  assert (V4 : vsame1 s s4 /\ (forall o' a', vref s4 o' a' = if Nat.eqb o' b && Nat.eqb a' a then ref_of newv else vref s o' a') /\
+               (forall o r' y, In y (vitems s4 o r') <->
+                  (if opt_is (ref_of newv) o && Nat.eqb r' r then y = b \/ In y (vitems s3 o r') else In y (vitems s3 o r')))).
+  { unfold s4. destruct newv as [| | |y]; try (split; [exact W1|]; split; [exact W2|]; intros; simpl; tauto).
+    destruct (TY y eq_refl) as [EY TE].
+    assert (EX3 : vex s3 y = true) by (destruct (W1 y) as (A & _); congruence).
+    assert (LT3 : (r < vslen s3 y)%nat).
+    { destruct (W1 y) as (_ & _ & _ & A). rewrite A. rewrite (sshape_vslen sch s y SS EY). rewrite TE.
+      eapply set_info_lt. eapply wf_ref_set; eauto. }
+    destruct (ADD s3 y r b EX3 LT3) as (Q1 & Q2 & Q3). split; [|split].
+    - eapply vsame1_trans; eauto.
+    - intros. rewrite Q2. apply W2.
+    - intros o r' z. rewrite Q3. simpl. rewrite (Nat.eqb_sym y o). tauto. }
+  destruct V4 as (X1 & X2 & X3).
+  eapply (Inv_relink sch s s4 b a t r (vref s b a) (ref_of newv) WF R LB RI eq_refl NE).
+  - intros y H. destruct newv; simpl in H; try discriminate. inversion H; subst. apply TY. reflexivity.
+  - intros o. destruct (X1 o) as (A & B & C & _). auto.
+  - intros o a' t' r' _. apply X2.
+  - intros o r' y. rewrite X3.
+    destruct (opt_is (vref s b a) o && Nat.eqb r' r) eqn:O1.
+    + assert (O2 : opt_is (ref_of newv) o && Nat.eqb r' r = false).
+      { apply andb_true_iff in O1. destruct O1 as [O1 O3]. rewrite O3, andb_true_r. apply opt_is_true in O1.
+        destruct (opt_is (ref_of newv) o) eqn:O4; auto. apply opt_is_true in O4. congruence. }
+      rewrite O2. rewrite W3, O1. tauto.
+    + destruct (opt_is (ref_of newv) o && Nat.eqb r' r); rewrite W3, O1; tauto.
+Qed.
+End RelLeaves.
+
+Section RelLeaves2.
+Variable sch : schema.
+Hypothesis WF : wf_schema sch = true.
+
+Lemma vlive_not_del : forall s o, vex s o = true -> is_del (obj_st s o) = false -> vlive s o = true.
+Proof. intros s o E D. unfold vex, vlive, obj_st in *. destruct (get_obj s o); try discriminate. rewrite D. reflexivity. Qed.
+
+Lemma vref_obj_val : forall s o a, vref s o a = match obj_val s o a with Some (VRef x) => Some x | _ => None end.
+Proof. reflexivity. Qed.
+
+Lemma oval_eqb_false_ref : forall old newv, oval_eqb old (Some newv) = false ->
+  match old with Some (VRef x) => Some x | _ => None end = ref_of newv -> ref_of newv = None.
+Proof.
+  intros old newv H E. destruct newv as [| | |y]; auto. simpl in E. destruct old as [[| | |x]|]; try discriminate.
+  inversion E; subst. simpl in H. rewrite Nat.eqb_refl in H. discriminate.
+Qed.
+
+(* a value change that leaves the reference view alone is a frame for the relationship invariant *)
+Lemma rframe_put_val_noref_gen : forall s o a v f, sets_val f a v -> vex s o = true ->
+  (forall ob, get_obj s o = Some ob -> (a < length (o_vals ob))%nat) ->
+  vref s o a = None -> ref_of v = None -> rframe sch s (upd_obj s o f).
+Proof.
+  intros s o a v f SV EX LT OLD NEW. unfold vex in EX. destruct (get_obj s o) as [ob|] eqn:G; try discriminate.
+  destruct (put_val_views_gen s o a v f ob SV G (LT ob eq_refl)) as (P1 & P2 & P3).
+  split. apply upd_obj_dirty. intros o'. destruct (P1 o') as (A & B & C & D). split; [exact A|]. split; [exact B|]. split; [exact C|]. split; [exact D|]. split.
+  - intros a' t r _. rewrite P3. destruct (Nat.eqb o' o && Nat.eqb a' a) eqn:E; auto.
+    apply andb_true_iff in E. destruct E as [E1 E2]. apply Nat.eqb_eq in E1, E2. subst. congruence.
+  - intros r y. rewrite P2. tauto.
+Qed.
+
+Lemma rframe_put_val_noref : forall s o a v, vex s o = true ->
+  (forall ob, get_obj s o = Some ob -> (a < length (o_vals ob))%nat) ->
+  vref s o a = None -> ref_of v = None -> rframe sch s (upd_obj s o (fun ob => ob_put_val ob a (Some v))).
+Proof. intros. eapply rframe_put_val_noref_gen; eauto. apply sets_val_put. Qed.
+
+Definition set_ref_gen (add : sess -> oid -> nat -> oid -> sess) (s : sess) (b : oid) (a r : nat) (newv : val) : sess :=
+  let old := obj_val s b a in
+  let s1 := mark_written s b a in
+  if oval_eqb old (Some newv) then s1
+  else
+    let s2 := upd_obj s1 b (fun ob => ob_put_val ob a (Some newv)) in
+    let s3 := match old with Some (VRef x) => rev_remove s2 x r b | _ => s2 end in
+    match newv with VRef y => add s3 y r b | _ => s3 end.
+
+Lemma vsame1_sshape : forall sA sB, vsame1 sA sB -> Inv_sshape sch sA -> Inv_sshape sch sB.
+Proof.
+  intros sA sB V S0 o2 ob2 G2. destruct (V o2) as (A & _ & C & D). unfold vex, vent, vslen, obj_ent in *. rewrite G2 in *.
+  destruct (get_obj sA o2) as [obA|] eqn:GA; try discriminate. rewrite D, C. apply (S0 o2 obA GA).
+Qed.
+
+Lemma kframe_set_ref_gen : forall add s b a r v t,
+  (forall s0 w r0 i, kframe sch s0 (add s0 w r0 i)) ->
+  is_del (obj_st s b) = false -> ref_info sch (vent s b) a = Some (t, r) -> kframe sch s (set_ref_gen add s b a r v).
+Proof.
+  intros add s b a r v t KA ND RI. unfold set_ref_gen.
+  pose proof (kframe_mark_written sch s b a ND) as F1.
+  destruct (oval_eqb (obj_val s b a) (Some v)); auto.
+  assert (F2 : kframe sch s (upd_obj (mark_written s b a) b (fun ob => ob_put_val ob a (Some v)))).
+  { eapply kframe_trans. apply F1. eapply kframe_put_ref_val; eauto. rewrite (kframe_obj_ent sch s _ b F1). eauto. }
+  set (s3 := match obj_val s b a with Some (VRef x) => rev_remove _ x r b | _ => _ end).
+  assert (F3 : kframe sch s s3).
+  { unfold s3. destruct (obj_val s b a) as [[| | |x]|]; auto. eapply kframe_trans. apply F2. apply kframe_rev_remove. }
+  destruct v; auto. eapply kframe_trans. apply F3. apply KA.
+Qed.
+
+Lemma Pkr_set_ref_gen : forall add s b a v t r,
+  (forall s0 w r0 i, vex s0 w = true -> (r0 < vslen s0 w)%nat -> adds_item s0 (add s0 w r0 i) w r0 i) ->
+  (forall s0 w r0 i, kframe sch s0 (add s0 w r0 i)) ->
+  Pkr sch s -> vex s b = true -> is_del (obj_st s b) = false -> ref_info sch (vent s b) a = Some (t, r) ->
+  (forall y, v = VRef y -> vex s y = true /\ vent s y = t) ->
+  Pkr sch (set_ref_gen add s b a r v).
+Proof.
+  intros add s o a v t r ADD KA P EX ND RI TY.
+  pose proof (kframe_set_ref_gen add s o a r v t KA ND RI) as KF.
+  pose proof (kframe_Pk sch s _ KF (Pkr_Pk sch s P)) as PK.
+  destruct P as [D|(I & SH & SS & R)].
+  { left. destruct KF as (_ & DD & _). congruence. }
+  destruct PK as [D'|[I' SH']]. left; exact D'. right. split; [exact I'|]. split; [exact SH'|].
+  unfold set_ref_gen in *.
+  pose proof (Fr_mark_written sch s o a ND) as F1. set (s1 := mark_written s o a) in *.
+  destruct F1 as [K1 R1]. pose proof (rframe_Inv sch s s1 R1 R) as RL1. pose proof (rframe_sshape sch s s1 R1 SS) as SS1.
+  pose proof (kframe_shape sch s s1 K1 SH) as SH1. pose proof (rframe_vsame1 sch s s1 R1) as VS1.
+  destruct (oval_eqb (obj_val s o a) (Some v)) eqn:SAME. split; assumption.
+  assert (EX1 : vex s1 o = true) by (destruct (VS1 o) as (A & _); congruence).
+  assert (LV1 : vlive s1 o = true) by (destruct (VS1 o) as (_ & B & _); rewrite B; apply vlive_not_del; auto).
+  assert (RI1 : ref_info sch (vent s1 o) a = Some (t, r)) by (destruct (VS1 o) as (_ & _ & C & _); rewrite C; exact RI).
+  assert (VR1 : vref s1 o a = vref s o a) by (destruct R1 as [_ F]; destruct (F o) as (_ & _ & _ & _ & A & _); apply (A a t r RI)).
+  assert (TY1 : forall y, v = VRef y -> vex s1 y = true /\ vent s1 y = t).
+  { intros y H. destruct (TY y H) as [A B]. destruct (VS1 y) as (C & _ & D & _). split; congruence. }
+  assert (OV : match obj_val s o a with Some (VRef x) => Some x | _ => None end = vref s1 o a) by (rewrite VR1; reflexivity).
+  destruct (ooid_dec (vref s1 o a) (ref_of v)) as [EQ|NE].
+  - assert (NV : ref_of v = None) by (apply (oval_eqb_false_ref (obj_val s o a) v SAME); rewrite OV; exact EQ).
+    assert (OLD : vref s1 o a = None) by congruence.
+    assert (X : match obj_val s o a with Some (VRef x) => rev_remove (upd_obj s1 o (fun ob => ob_put_val ob a (Some v))) x r o | _ => upd_obj s1 o (fun ob => ob_put_val ob a (Some v)) end
+                = upd_obj s1 o (fun ob => ob_put_val ob a (Some v))).
+    { rewrite OLD in OV. destruct (obj_val s o a) as [[| | |x]|]; try reflexivity. discriminate. }
+    rewrite X. assert (Y : match v with VRef y => add (upd_obj s1 o (fun ob => ob_put_val ob a (Some v))) y r o | _ => upd_obj s1 o (fun ob => ob_put_val ob a (Some v)) end
+                = upd_obj s1 o (fun ob => ob_put_val ob a (Some v))) by (destruct v; try reflexivity; discriminate).
+    rewrite Y.
+    assert (RF : rframe sch s1 (upd_obj s1 o (fun ob => ob_put_val ob a (Some v)))).
+    { apply rframe_put_val_noref; auto. intros ob G. rewrite (SH1 o ob G). unfold vent, obj_ent in RI1. rewrite G in RI1. eapply ref_info_lt; eauto. }
+    split. eapply rframe_sshape; eauto. eapply rframe_Inv; eauto.
+  - pose proof (Inv_rel_set_ref sch WF s1 o a t r v add ADD SH1 SS1 RL1 LV1 RI1 TY1 NE) as IR.
+    cbv zeta in IR. rewrite <- OV in IR.
+    assert (E3 : match match obj_val s o a with Some (VRef x) => Some x | _ => None end with
+                 | Some x => rev_remove (upd_obj s1 o (fun ob => ob_put_val ob a (Some v))) x r o
+                 | None => upd_obj s1 o (fun ob => ob_put_val ob a (Some v)) end =
+                 match obj_val s o a with Some (VRef x) => rev_remove (upd_obj s1 o (fun ob => ob_put_val ob a (Some v))) x r o | _ => upd_obj s1 o (fun ob => ob_put_val ob a (Some v)) end).
+    { destruct (obj_val s o a) as [[| | |x]|]; reflexivity. }
+    rewrite E3 in IR. split; [|exact IR].
+    refine (vsame1_sshape s1 _ _ SS1).
+    assert (V2 : vsame1 s1 (upd_obj s1 o (fun ob => ob_put_val ob a (Some v)))) by (apply vsame1_upd_obj; intros; auto).
+    assert (V3 : vsame1 s1 (match obj_val s o a with Some (VRef x) => rev_remove (upd_obj s1 o (fun ob => ob_put_val ob a (Some v))) x r o | _ => upd_obj s1 o (fun ob => ob_put_val ob a (Some v)) end)).
+    { destruct (obj_val s o a) as [[| | |x]|]; auto. eapply vsame1_trans. exact V2. apply (rev_remove_removes _ x r o). }
+    destruct v as [| | |y]; auto.
+    eapply vsame1_trans. exact V3.
+    destruct (TY1 y eq_refl) as [EY TE].
+    apply (ADD _ y r o).
+    + destruct (V3 y) as (A & _). congruence.
+    + destruct (V3 y) as (_ & _ & _ & A). rewrite A. rewrite (sshape_vslen sch s1 y SS1 EY). rewrite TE. eapply set_info_lt. eapply wf_ref_set; eauto.
+Qed.
+
+Lemma ref_set_direct_gen : forall s o a v, ref_set_direct sch s o a v =
+  match ref_info sch (obj_ent s o) a with Some (_, r) => set_ref_gen rev_add s o a r v | None => s end.
+Proof. intros. unfold ref_set_direct, set_ref_gen. destruct (ref_info sch (obj_ent s o) a) as [[t r]|]; reflexivity. Qed.
+
+Lemma ref_set_rev_gen : forall s o a v, ref_set_rev sch s o a v =
+  match ref_info sch (obj_ent s o) a with Some (_, r) => set_ref_gen (fun s0 _ _ _ => s0) s o a r v | None => s end.
+Proof.
+  intros. unfold ref_set_rev, set_ref_gen. destruct (ref_info sch (obj_ent s o) a) as [[t r]|]; auto.
+  destruct (oval_eqb (obj_val s o a) (Some v)); auto. destruct v; reflexivity.
+Qed.
+
+Lemma Pkr_ref_set_direct : forall s o a v t r,
+  Pkr sch s -> vex s o = true -> is_del (obj_st s o) = false -> ref_info sch (vent s o) a = Some (t, r) ->
+  (forall y, v = VRef y -> vex s y = true /\ vent s y = t) ->
+  Pkr sch (ref_set_direct sch s o a v).
+Proof.
+  intros. rewrite ref_set_direct_gen. unfold vent in H2. rewrite H2.
+  eapply Pkr_set_ref_gen; eauto. apply rev_add_adds. intros. apply kframe_rev_add.
+Qed.
+
+(* the collection side unlinks an item: item.a = None *)
+Lemma Pkr_unlink_item : forall s item a, Pkr sch s -> vex s item = true -> is_del (obj_st s item) = false ->
+  Pkr sch (ref_set_rev sch s item a VNone).
+Proof.
+  intros s item a P EX ND. rewrite ref_set_rev_gen. destruct (ref_info sch (obj_ent s item) a) as [[t r]|] eqn:RI; auto.
+  assert (E : set_ref_gen (fun s0 _ _ _ => s0) s item a r VNone = set_ref_gen rev_add s item a r VNone).
+  { unfold set_ref_gen. destruct (oval_eqb (obj_val s item a) (Some VNone)); reflexivity. }
+  rewrite E. eapply Pkr_set_ref_gen; eauto. apply rev_add_adds. intros. apply kframe_rev_add. intros y H. discriminate.
+Qed.
+Lemma Pkr_item_link : forall s o a r item,
+  Pkr sch s -> vex s item = true -> is_del (obj_st s item) = false -> vex s o = true ->
+  ref_info sch (vent s item) r = Some (vent s o, a) ->
+  Pkr sch (item_link sch s o a r item).
+Proof.
+  intros s o a r item P EX ND EXO RI. unfold item_link. unfold vent in RI. rewrite RI. rewrite Nat.eqb_refl.
+  rewrite ref_set_rev_gen. rewrite RI. unfold set_ref_gen.
+  destruct (oval_eqb (obj_val s item r) (Some (VRef o))) eqn:SAME.
+  - (* already linked: only the membership is (re)asserted *)
+    apply oval_eqb_eq in SAME.
+    pose proof (Fr_mark_written sch s item r ND) as F1. pose proof (Fr_Pkr sch s _ F1 P) as P1.
+    set (s1 := mark_written s item r) in *. destruct F1 as [K1 R1].
+    pose proof (kframe_Pk sch s1 _ (kframe_sd_add_item sch s1 o a item) (Pkr_Pk sch s1 P1)) as PK.
+    destruct P1 as [D|(I & SH & SS & R)]. { left. rewrite (proj1 (proj2 (kframe_sd_add_item sch s1 o a item))). exact D. }
+    destruct PK as [D'|[I' SH']]. left; exact D'. right. split; [exact I'|]. split; [exact SH'|].
+    pose proof (rframe_vsame1 sch s s1 R1) as VS1.
+    assert (EXO1 : vex s1 o = true) by (destruct (VS1 o) as (A & _); congruence).
+    assert (LT : (a < vslen s1 o)%nat).
+    { rewrite (sshape_vslen sch s1 o SS EXO1). destruct (VS1 o) as (_ & _ & C & _). rewrite C.
+      eapply set_info_lt. eapply wf_ref_set; eauto. }
+    destruct (sd_add_item_adds s1 o a item EXO1 LT) as (A1 & A2 & A3).
+    assert (MEM : In item (vitems s1 o a)).
+    { destruct R as (_ & R1' & _). apply (R1' item r (vent s o) a o).
+      - destruct (VS1 item) as (_ & B & _). rewrite B. apply vlive_not_del; auto.
+      - unfold is_ref_of. destruct (VS1 item) as (_ & _ & C & _). rewrite C. exact RI.
+      - destruct R1 as [_ F]. destruct (F item) as (_ & _ & _ & _ & X & _). rewrite (X r (vent s o) a RI). unfold vref. rewrite SAME. reflexivity. }
+    assert (RF : rframe sch s1 (sd_add_item s1 o a item)).
+    { split. apply (proj1 (proj2 (kframe_sd_add_item sch s1 o a item))). intros o'. destruct (A1 o') as (B1 & B2 & B3 & B4).
+      split; [exact B1|]. split; [exact B2|]. split; [exact B3|]. split; [exact B4|]. split.
+      - intros. apply A2.
+      - intros r' y. rewrite A3. destruct (Nat.eqb o' o && Nat.eqb r' a) eqn:E; [|tauto].
+        apply andb_true_iff in E. destruct E as [E1 E2]. apply Nat.eqb_eq in E1, E2. subst o' r'. split; [|auto]. intros [H|H]; subst; auto. }
+    split. eapply rframe_sshape; eauto. eapply rframe_Inv; eauto.
+  - assert (E : sd_add_item (match obj_val s item r with
+                              | Some (VRef x) => rev_remove (upd_obj (mark_written s item r) item (fun ob => ob_put_val ob r (Some (VRef o)))) x a item
+                              | _ => upd_obj (mark_written s item r) item (fun ob => ob_put_val ob r (Some (VRef o))) end) o a item
+               = set_ref_gen sd_add_item s item r a (VRef o)).
+    { unfold set_ref_gen. rewrite SAME. reflexivity. }
+    rewrite E. eapply Pkr_set_ref_gen; eauto. apply sd_add_item_adds. intros. apply kframe_sd_add_item.
+    intros y H. inversion H; subst. auto.
+Qed.
+End RelLeaves2.
+
+Section RelLeaves3.
+Variable sch : schema.
+Hypothesis WF : wf_schema sch = true.
+
+(* pushing an object without references or collections *)
+Lemma Inv_rel_push : forall s ob, Inv_rel sch s ->
+  (forall a, oref ob a = None) -> (forall r, oitems ob r = []) -> Inv_rel sch (fst (push_obj s ob)).
+Proof.
+  intros s ob (R0 & R1 & R2) NR NI. set (s' := fst (push_obj s ob)). set (n := length (s_objs s)).
+  assert (OLD : forall o, (o < n)%nat -> get_obj s' o = get_obj s o) by (intros; apply get_push_obj_old; auto).
+  assert (NEW : get_obj s' n = Some ob) by (apply (get_push_obj_new s ob)).
+  assert (EXLT : forall o, vex s o = true -> (o < n)%nat).
+  { intros o H. unfold vex in H. destruct (get_obj s o) eqn:G; try discriminate. eapply get_obj_lt; eauto. }
+  assert (VO : forall o, (o < n)%nat -> vex s' o = vex s o /\ vlive s' o = vlive s o /\ vent s' o = vent s o /\
+                 (forall a, vref s' o a = vref s o a) /\ (forall r, vitems s' o r = vitems s o r)).
+  { intros o L. unfold vex, vlive, vent, vref, vitems, obj_ent, obj_val, coll_items. rewrite (OLD o L). auto. }
+  assert (VN : (forall a, vref s' n a = None) /\ (forall r, vitems s' n r = [])).
+  { split; intros. rewrite (vref_get s' n ob a NEW). apply NR. rewrite (vitems_get s' n ob r NEW). apply NI. }
+  assert (GE : forall o, (n < o)%nat -> get_obj s' o = None).
+  { intros o L. apply get_obj_ge. unfold s', push_obj, set_objs. cbn [fst s_objs]. rewrite app_length. simpl. fold n. lia. }
+  assert (EX' : forall o, vex s' o = true -> (o < n)%nat \/ o = n).
+  { intros o H. destruct (lt_dec n o). unfold vex in H. rewrite (GE o l) in H. discriminate. lia. }
+  unfold Inv_rel, is_ref_of. split; [|split].
+  - intros b a t r x EX RI VR. destruct (EX' b EX) as [L| ->]; [|rewrite (proj1 VN) in VR; discriminate].
+    destruct (VO b L) as (A & B & C & D & E). rewrite A in EX. rewrite C in RI. rewrite D in VR.
+    destruct (R0 b a t r x EX RI VR) as [X1 X2]. destruct (VO x (EXLT x X1)) as (A' & _ & C' & _). rewrite A', C'. auto.
+  - intros b a t r x LV RI VR. assert (EX : vex s' b = true) by (unfold vlive, vex in *; destruct (get_obj s' b); auto; discriminate).
+    destruct (EX' b EX) as [L| ->]; [|rewrite (proj1 VN) in VR; discriminate].
+    destruct (VO b L) as (A & B & C & D & E). rewrite B in LV. rewrite C in RI. rewrite D in VR.
+    destruct (R0 b a t r x (eq_trans (eq_sym A) EX) RI VR) as [X1 X2]. destruct (VO x (EXLT x X1)) as (_ & _ & _ & _ & E'). rewrite E'. eapply R1; eauto.
+  - intros x r b M. destruct (lt_dec x n) as [L|GEx].
+    + destruct (VO x L) as (_ & _ & _ & _ & E). rewrite E in M. destruct (R2 x r b M) as [LV (a & t & RI & VR)].
+      assert (LB : (b < n)%nat) by (apply EXLT; unfold vlive, vex in *; destruct (get_obj s b); auto; discriminate).
+      destruct (VO b LB) as (_ & B & C & D & _). split. congruence. exists a, t. rewrite C, D. auto.
+    + exfalso. destruct (Nat.eq_dec x n) as [->|NE]. rewrite (proj2 VN) in M. destruct M.
+      unfold vitems, coll_items in M. rewrite (GE x) in M by lia. destruct M.
+Qed.
+
+Lemma sshape_push : forall s ob, Inv_sshape sch s -> length (o_sets ob) = nattrs sch (o_ent ob) -> Inv_sshape sch (fst (push_obj s ob)).
+Proof.
+  intros s ob SS L o ob' G. rewrite get_push_obj in G. destruct (Nat.eqb o (length (s_objs s))). inversion G; subst; auto. apply (SS o ob' G).
+Qed.
+
+Lemma oref_new_loaded : forall e pk a, oref (new_loaded sch e pk) a = None.
+Proof. intros. unfold oref, oval, new_loaded. cbn [o_vals]. rewrite nth_repeat_same. reflexivity. Qed.
+Lemma oitems_new_loaded : forall e pk r, oitems (new_loaded sch e pk) r = [].
+Proof. intros. unfold oitems, oset, new_loaded. cbn [o_sets]. rewrite nth_repeat_same. reflexivity. Qed.
+
+Lemma Pkr_get_or_seed : forall s e pk, Pkr sch s -> Pkr sch (fst (get_or_seed sch s e pk)).
+Proof.
+  intros s e pk P. pose proof (Pk_get_or_seed sch s e pk (Pkr_Pk sch s P)) as PK.
+  destruct P as [D|(I & SH & SS & R)]. left. rewrite get_or_seed_dirty. exact D.
+  destruct PK as [D'|[I' SH']]. left; exact D'. right. split; [exact I'|]. split; [exact SH'|].
+  destruct (idx_get s e O (VInt pk)) eqn:G.
+  - unfold get_or_seed. rewrite G. auto.
+  - rewrite (get_or_seed_none sch s e pk G). cbn [fst]. split.
+    + eapply (rframe_sshape sch (fst (push_obj s (new_loaded sch e pk)))). apply rframe_fields; reflexivity.
+      apply sshape_push; auto. unfold new_loaded. cbn [o_sets o_ent]. apply repeat_length.
+    + eapply (rframe_Inv sch (fst (push_obj s (new_loaded sch e pk)))). apply rframe_fields; reflexivity.
+      apply Inv_rel_push; auto. apply oref_new_loaded. apply oitems_new_loaded.
+Qed.
+
+(* the object registered under (e, pk) has entity e *)
+Lemma get_or_seed_ent : forall s e pk, Inv_idx sch s ->
+  vex (fst (get_or_seed sch s e pk)) (snd (get_or_seed sch s e pk)) = true /\ vent (fst (get_or_seed sch s e pk)) (snd (get_or_seed sch s e pk)) = e.
+Proof.
+  intros s e pk I. destruct (idx_get s e O (VInt pk)) as [o|] eqn:G.
+  - unfold get_or_seed. rewrite G. cbn [fst snd]. apply (I e O (VInt pk) o) in G. destruct G as (ob & Hb & He & _).
+    unfold vex, vent, obj_ent. rewrite Hb. auto.
+  - rewrite (get_or_seed_none sch s e pk G). cbn [fst snd]. unfold vex, vent, obj_ent. rewrite get_obj_idx_put.
+    rewrite (get_push_obj s (new_loaded sch e pk)). rewrite Nat.eqb_refl. auto.
+Qed.
+End RelLeaves3.
+
+Section RelLeaves4.
+Variable sch : schema.
+Hypothesis WF : wf_schema sch = true.
+
+Lemma Pkr_of_parts : forall s, Pk sch s -> (s_dirty s = O -> Inv_sshape sch s /\ Inv_rel sch s) -> Pkr sch s.
+Proof.
+  intros s [D|[I SH]] H. left; exact D. destruct (Nat.eq_dec (s_dirty s) O) as [Z|NZ].
+  right. destruct (H Z). auto. left; exact NZ.
+Qed.
+
+Lemma Pkr_dirty : forall s site, site <> O -> Pkr sch (mark_dirty s site).
+Proof. intros. left. unfold mark_dirty. cbn [s_dirty]. destruct (s_dirty s); auto. Qed.
+
+Lemma Pkr_dirty_keep : forall s site, Pkr sch s -> Pkr sch (mark_dirty s site).
+Proof.
+  intros s site [D|H]. left. unfold mark_dirty. cbn [s_dirty]. destruct (s_dirty s); congruence.
+  destruct site. right. exact H. apply Pkr_dirty. discriminate.
+Qed.
+
+Lemma kind_ref_info : forall e a at_ t r, get_attr sch e a = Some at_ -> a_kind at_ = KRef t r -> ref_info sch e a = Some (t, r).
+Proof. intros. unfold ref_info. rewrite H, H0. reflexivity. Qed.
+Lemma kind_noref_info : forall e a at_, get_attr sch e a = Some at_ -> is_ref_kind (a_kind at_) = false -> ref_info sch e a = None.
+Proof. intros. unfold ref_info. rewrite H. destruct (a_kind at_); try reflexivity. discriminate. Qed.
+
+Lemma robj_eq_sets_val_noref : forall f a v ob, sets_val f a v -> ref_info sch (o_ent ob) a = None -> robj_eq sch ob (f ob).
+Proof.
+  intros f a v ob SV N. destruct (SV ob) as (A & B & C & D). unfold robj_eq. rewrite A, B, C. split; [|split; [|split; [|split]]]; auto.
+  - intros x t r H. destruct (Nat.eq_dec a x). subst. congruence. unfold oref, oval. rewrite D. rewrite nth_upd_nth_other by auto. reflexivity.
+  - intros r y. unfold oitems, oset. rewrite C. tauto.
+Qed.
+
+Lemma dbset_index_objs : forall s o e a v, s_objs (dbset_index sch s o e a v) = s_objs s.
+Proof.
+  intros. unfold dbset_index. destruct (attr_uniq sch e a && negb (oval_eqb (obj_val s o a) (Some v))); auto.
+  destruct (is_vnone v); destruct (obj_val s o a) as [ov|]; try destruct (is_vnone ov); reflexivity.
+Qed.
+
+Lemma dbset_attr_dirty_mono : forall s o e a v, s_dirty s <> O -> s_dirty (out_state (dbset_attr sch s o e a v)) <> O.
+Proof.
+  intros s o e a v D. unfold dbset_attr. destruct (get_obj s o) as [ob|]; auto. destruct (get_attr sch e a) as [at_|]; auto.
+  destruct (is_set_kind (a_kind at_)); auto. destruct (odbval ob a) as [old|].
+  { destruct (val_eqb old v); auto. simpl. unfold mark_dirty. cbn [s_dirty]. destruct (s_dirty s); congruence. }
+  destruct (owbit ob a).
+  { destruct (a_kind at_); try (simpl; rewrite upd_obj_dirty; exact D).
+    destruct v; try (simpl; rewrite upd_obj_dirty; exact D).
+    destruct (db_rev_add s o0 rev o); simpl; unfold mark_dirty; cbn [s_dirty]; match goal with |- context [match ?x with O => _ | S _ => _ end] => destruct x end; discriminate. }
+  destruct (oval ob a). { simpl. unfold mark_dirty. cbn [s_dirty]. destruct (s_dirty s); congruence. }
+  match goal with |- context [if ?c then _ else _] => destruct c end. { simpl. unfold mark_dirty. cbn [s_dirty]. destruct (s_dirty s); congruence. }
+  match goal with |- context [match ?r0 with Ok _ _ => _ | Err _ _ => _ end] => set (r1 := r0) end.
+  assert (DR : s_dirty (out_state r1) = s_dirty s).
+  { unfold r1. destruct (a_kind at_); auto. destruct v; auto. apply (proj1 (proj2 (kframe_db_rev_add sch s o0 rev o))). }
+  destruct r1 as [s1 u|s1 er]; simpl in *.
+  - rewrite upd_obj_dirty, dbset_index_dirty. congruence.
+  - unfold mark_dirty. cbn [s_dirty]. destruct (s_dirty s1); congruence.
+Qed.
+
+Lemma Pkr_dbset_attr : forall s o e a v,
+  Pkr sch s -> obj_ent s o = e -> vex s o = true -> is_del (obj_st s o) = false ->
+  (forall y t r, v = VRef y -> ref_info sch e a = Some (t, r) -> vex s y = true /\ vent s y = t) ->
+  Pkr sch (out_state (dbset_attr sch s o e a v)).
+Proof.
+  intros s o e a v P EE EX ND TY.
+  pose proof (Pk_dbset_attr sch s o e a v (Pkr_Pk sch s P) EE ND) as PK.
+  destruct P as [D|(I & SH & SS & R)]. { left. apply dbset_attr_dirty_mono. exact D. }
+  apply Pkr_of_parts; auto. intros CLEAN.
+  unfold dbset_attr in *.
+  destruct (get_obj s o) as [ob|] eqn:G; [|auto].
+  assert (EO : o_ent ob = e) by (rewrite <- EE; unfold obj_ent; rewrite G; reflexivity).
+  destruct (get_attr sch e a) as [at_|] eqn:GA; [|auto].
+  destruct (is_set_kind (a_kind at_)) eqn:ISK; [auto|].
+  destruct (odbval ob a) as [old|].
+  { destruct (val_eqb old v); auto. }
+  destruct (owbit ob a).
+  { assert (Q : rframe sch s (upd_obj s o (fun ob2 => ob_put_dbval ob2 a (Some v)))) by (apply rframe_upd_obj; intros; apply robj_eq_dbval).
+    destruct (a_kind at_) as [| |t r|t r]; try (split; [eapply rframe_sshape|eapply rframe_Inv]; eauto; fail).
+    destruct v; try (split; [eapply rframe_sshape|eapply rframe_Inv]; eauto; fail).
+    exfalso. destruct (db_rev_add s o0 r o); simpl in CLEAN; unfold mark_dirty in CLEAN; cbn [s_dirty] in CLEAN;
+      match type of CLEAN with context [match ?x with O => _ | S _ => _ end] => destruct x end; discriminate. }
+  destruct (oval ob a) eqn:OV. { auto. }
+  match goal with |- context [if ?c then _ else _] => destruct c eqn:CF end. { auto. }
+  assert (LTa : (a < length (o_vals ob))%nat).
+  { rewrite (SH o ob G). rewrite EO. eapply get_attr_lt; eauto. }
+  assert (VR0 : vref s o a = None) by (rewrite (vref_get s o ob a G); unfold oref; rewrite OV; reflexivity).
+  assert (LIVE : vlive s o = true) by (apply vlive_not_del; auto).
+  assert (SV := sets_val_put_db a v (Some v)).
+  (* the cases without a new link: the relationship views do not change *)
+  assert (NOLINK : ref_info sch e a = None \/ ref_of v = None ->
+            Inv_sshape sch (upd_obj (dbset_index sch s o e a v) o (fun ob2 => ob_put_val (ob_put_dbval ob2 a (Some v)) a (Some v))) /\
+            Inv_rel sch (upd_obj (dbset_index sch s o e a v) o (fun ob2 => ob_put_val (ob_put_dbval ob2 a (Some v)) a (Some v)))).
+  { intros C.
+    assert (RF : rframe sch s (upd_obj (dbset_index sch s o e a v) o (fun ob2 => ob_put_val (ob_put_dbval ob2 a (Some v)) a (Some v)))).
+    { eapply rframe_trans. apply (rframe_fields sch s (dbset_index sch s o e a v)). apply dbset_index_objs. apply dbset_index_dirty.
+      destruct C as [C|C].
+      - apply rframe_upd_obj. intros ob2 G2. apply (robj_eq_sets_val_noref _ a v ob2 SV).
+        unfold get_obj in G2. rewrite dbset_index_objs in G2. fold (get_obj s o) in G2. rewrite G in G2. inversion G2. subst ob2. rewrite EO. exact C.
+      - eapply (rframe_put_val_noref_gen sch (dbset_index sch s o e a v) o a v _ SV); auto.
+        + unfold vex, get_obj. rewrite dbset_index_objs. fold (get_obj s o). rewrite G. reflexivity.
+        + intros ob2 G2. unfold get_obj in G2. rewrite dbset_index_objs in G2. fold (get_obj s o) in G2. rewrite G in G2. inversion G2. subst ob2. exact LTa.
+        + unfold vref, obj_val, get_obj. rewrite dbset_index_objs. fold (get_obj s o). rewrite G, OV. reflexivity. }
+    split. eapply rframe_sshape; eauto. eapply rframe_Inv; eauto. }
+  destruct (a_kind at_) as [| |t r|t r] eqn:K; try discriminate.
+  - cbn [out_state] in *. apply NOLINK. left. eapply kind_noref_info; eauto. rewrite K. reflexivity.
+  - cbn [out_state] in *. apply NOLINK. left. eapply kind_noref_info; eauto. rewrite K. reflexivity.
+  - assert (RI : ref_info sch e a = Some (t, r)) by (eapply kind_ref_info; eauto).
+    destruct v as [| | |y]; try (cbn [out_state] in *; apply NOLINK; right; reflexivity).
+    destruct (TY y t r eq_refl RI) as [EY TE].
+    assert (LTr : (r < vslen s y)%nat).
+    { rewrite (sshape_vslen sch s y SS EY). rewrite TE. eapply set_info_lt. eapply wf_ref_set; eauto. }
+    destruct (db_rev_add s y r o) as [s1 u|s1 er] eqn:DB; cbn [out_state] in *; [|auto].
+    destruct (db_rev_add_adds s y r o s1 u EY LTr DB) as (A1 & A2 & A3).
+    assert (NU : attr_uniq sch e a = false) by (eapply wf_ref_not_uniq; eauto).
+    assert (DI : dbset_index sch s1 o e a (VRef y) = s1) by (unfold dbset_index; rewrite NU; reflexivity).
+    rewrite DI in *.
+    pose proof (kframe_db_rev_add sch s y r o) as KF. rewrite DB in KF. cbn [out_state] in KF.
+    destruct KF as (_ & _ & _ & KO). destruct (KO o ob G) as (ob1 & G1 & KE).
+    assert (LT1 : (a < length (o_vals ob1))%nat) by (destruct KE as (_ & _ & _ & _ & _ & L & _); rewrite <- L; exact LTa).
+    destruct (put_val_views_gen s1 o a (VRef y) _ ob1 SV G1 LT1) as (P1 & P2 & P3).
+    split.
+    + eapply vsame1_sshape. eapply vsame1_trans. exact A1. exact P1. exact SS.
+    + eapply (Inv_relink sch s _ o a t r None (Some y) WF R LIVE).
+      * unfold is_ref_of, vent. rewrite EE. exact RI.
+      * exact VR0.
+      * discriminate.
+      * intros y0 H. inversion H; subst. auto.
+      * intros o'. destruct (A1 o') as (B1 & B2 & B3 & _). destruct (P1 o') as (C1 & C2 & C3 & _). repeat split; congruence.
+      * intros o' a' t' r' _. rewrite P3. rewrite A2. reflexivity.
+      * intros o' r' z. rewrite P2. rewrite A3. simpl. rewrite (Nat.eqb_sym y o'). tauto.
+  - discriminate.
+Qed.
+End RelLeaves4.
